@@ -175,6 +175,48 @@ def hand_nested_rne2(x: fp.Real, y: fp.Real):
             t = y / fp.round(3)
         with fp.IEEEContext(4, 10):
             return t * t / fp.round(5)''',
+    'hand_swap': '''@fp.fpy
+def hand_swap(x: fp.Real, y: fp.Real):
+    with fp.IEEEContext(4, 11):
+        a = x / fp.round(3)
+        b = y
+        a, b = b, a + b
+        a, b = b, a
+        c, d = a - b, a * b
+        return (a, b, c, d)''',
+    'hand_wide_literal': '''@fp.fpy
+def hand_wide_literal(x: fp.Real, y: fp.Real):
+    with fp.IEEEContext(4, 10):
+        a = x + fp.round(131)
+        b = fp.round(67) * fp.round(3)
+        c = y - fp.round(1000)
+        return (a, b, c)''',
+    'hand_ne_chain': '''@fp.fpy
+def hand_ne_chain(x: fp.Real, y: fp.Real):
+    with fp.IEEEContext(4, 11):
+        a = fp.round(1) if x != y != x else fp.round(0)
+        b = fp.round(1) if x < y <= y else fp.round(0)
+        c = fp.round(1) if x == y == x else fp.round(0)
+        return (a, b, c)''',
+    'hand_fixed_scope': '''@fp.fpy
+def hand_fixed_scope(x: fp.Real, y: fp.Real):
+    with fp.FixedContext(True, -4, 8, fp.RM.RTZ, fp.OV.SATURATE):
+        a = x * y
+    with fp.INTEGER:
+        c = x * y
+    with fp.FixedContext(True, 2, 5, fp.RM.RNE, fp.OV.SATURATE):
+        d = x * y * fp.round(16)
+    return (a, c, d)''',
+    'hand_mpfixed_negzero': '''@fp.fpy
+def hand_mpfixed_negzero(x: fp.Real, y: fp.Real):
+    with fp.MPFixedContext(-1):
+        c = x * y
+    return c''',
+    'hand_mpfixed_scope': '''@fp.fpy
+def hand_mpfixed_scope(x: fp.Real, y: fp.Real):
+    with fp.MPFixedContext(-3, fp.RM.RTZ):
+        b = x * y
+    return b''',
     'hand_range_step': '''@fp.fpy
 def hand_range_step(x: fp.Real, y: fp.Real):
     with fp.IEEEContext(4, 11):
@@ -295,6 +337,102 @@ def shape_like(v, like):
     return v
 
 
+# Hand-written cores for the reader (FPCore -> FPy): "reading an FPCore back into FPy gives a function that evaluates to the same
+# results as the core".  The reference evaluator's outcome and the re-read function's outcome are a pair judged by spec/Agree.tla.
+G = [0.5, 1.0, 1.099609375, 2.298828125, -0.75, 3.0, 0.0, 5.0]
+CORES = {
+    'inner_round_only': ('(FPCore (x) :precision binary16 (let ([y (! :round toZero (* x x))]) y))', [(v,) for v in G]),
+    'inner_round_in_op': ('(FPCore (x y) (! :precision binary16 (+ x (! :round toPositive (* x y)))))', [(a, b) for a in G[:5] for b in G[2:6]]),
+    'inner_round_in_if': ('(FPCore (x y) :precision binary16 (if (< x y) (! :round toNegative (/ x y)) (! :round toPositive (/ y 3))))',
+                          [(a, b) for a in G[:5] for b in (1.099609375, 3.0, 7.0)]),
+    'inner_prec_only': ('(FPCore (x y) :round toZero (+ (! :precision binary16 (* x y)) (! :precision binary32 (/ x 3))))',
+                        [(a, b) for a in G[:5] for b in G[2:5]]),
+    'props_in_while': ('(FPCore (x) :precision binary16 (while (< i 3) ([i 0 (+ i 1)] [a x (! :round toZero (/ a 3))]) a))', [(v,) for v in G]),
+    'props_in_for': ('(FPCore (x) :precision binary16 (for ([i 3]) ([a x (! :round toPositive (/ a 3))]) a))', [(v,) for v in G]),
+    'props_in_tensor': ('(FPCore (x) :precision binary16 (ref (tensor ([i 3]) (! :round toZero (/ x (+ i 3)))) 1))', [(v,) for v in G]),
+    'while_cond_if': ('(FPCore (n) (while (< (if (< i 2) i (* i 2)) n) ([i 0 (+ i 1)]) i))', [(5.0,), (1.0,), (3.0,), (0.0,)]),
+    'while_cond_let': ('(FPCore (n) (while (let ([j (+ i 1)]) (< j n)) ([i 0 (+ i 1)]) i))', [(5.0,), (1.0,), (3.0,)]),
+    'while_cond_fmax': ('(FPCore (x n) (while (< (fmax i x) n) ([i 0 (+ i 1)]) i))', [(1.0, 4.0), (0.0, 3.0), (5.0, 4.0)]),
+    'fmin_nan': ('(FPCore (x y) (fmin x y))', [(float('nan'), 1.0), (1.0, float('nan')), (2.0, 1.0), (-0.0, 0.0)]),
+    # (no fmax(-0, +0): C leaves the sign open and the reference evaluator answers -0)
+    'fmax_nan': ('(FPCore (x y) (fmax x y))', [(float('nan'), 1.0), (1.0, float('nan')), (2.0, 1.0), (-3.0, -1.0)]),
+    'neq_nary': ('(FPCore (x y z) (if (!= x y z) 1 0))', [(1.0, 2.0, 1.0), (1.0, 2.0, 3.0), (1.0, 1.0, 2.0), (2.0, 1.0, 1.0)]),
+    'lt_nary': ('(FPCore (x y z) (if (< x y z) 1 0))', [(1.0, 2.0, 3.0), (1.0, 3.0, 2.0), (2.0, 1.0, 3.0)]),
+    'eq_nary': ('(FPCore (x y z) (if (== x y z) 1 0))', [(1.0, 1.0, 1.0), (1.0, 1.0, 2.0), (0.0, -0.0, 0.0)]),
+    'let_parallel': ('(FPCore (x y) (let ([x y] [y x]) (- x y)))', [(1.0, 3.0), (5.0, 0.5)]),
+    'let_sequential': ('(FPCore (x y) (let* ([x y] [y x]) (- x y)))', [(1.0, 3.0), (5.0, 0.5)]),
+    'while_parallel': ('(FPCore (n) (while (< i n) ([i 0 (+ i 1)] [s 0 (+ s i)]) s))', [(4.0,), (0.0,), (1.0,)]),
+    'while_sequential': ('(FPCore (n) (while* (< i n) ([i 0 (+ i 1)] [s 0 (+ s i)]) s))', [(4.0,), (0.0,), (1.0,)]),
+    'for_parallel': ('(FPCore (x) (for ([i 4]) ([a x b] [b 1 (+ a b)]) (- a b)))', [(1.0,), (3.0,)]),
+    'for_sequential': ('(FPCore (x) (for* ([i 4]) ([a x b] [b 1 (+ a b)]) (- a b)))', [(1.0,), (3.0,)]),
+    'tensor_star': ('(FPCore (x) (ref (tensor* ([i 3]) ([a x (* a 2)] [b a (+ b a)]) (+ a b)) 2))', [(1.0,), (0.5,)]),
+    'tensor_2d': ('(FPCore (x) (ref (tensor ([i 2] [j 3]) (+ (* i 3) (* j x))) 1 2))', [(1.0,), (0.5,)]),
+    'size_dim': ('(FPCore (x) (+ (size (tensor ([i 2] [j 3]) x) 1) (dim (tensor ([i 2] [j 3]) x))))', [(1.0,)]),
+    'cast_narrow': ('(FPCore (x) :precision binary64 (+ (! :precision binary16 (cast x)) 1))', [(1.099609375 + 2 ** -20,), (70000.0,), (1e-9,)]),
+    'constants': ('(FPCore (x) :precision binary32 (+ (* x PI) (- E LN2)))', [(1.0,), (0.5,)]),
+    'specials': ('(FPCore (x) (if (> x 1) INFINITY (if (< x 0) NAN (- 0 x))))', [(2.0,), (-1.0,), (0.0,), (0.5,)]),
+    'rational_lits': ('(FPCore (x) :precision binary16 (+ (* x 1/3) (- 0x1.8p1 (digits 3 -1 2))))', [(1.0,), (3.0,)]),
+    'int_literal_wide': ('(FPCore (x) :precision binary16 (let ([s 2051]) (* s x)))', [(1.0,), (3.0,)]),
+    'bool_ops': ('(FPCore (x y) (if (and (or (< x y) (not (== x y))) TRUE) (fabs x) (copysign y x)))', [(1.0, 2.0), (2.0, 1.0), (1.0, 1.0), (-1.0, -1.0)]),
+    'math_ops': ('(FPCore (x y) :precision binary32 (+ (fma x y 1) (- (sqrt (fabs x)) (fdim x y))))', [(1.0, 2.0), (2.5, 1.5), (-4.0, 0.5)]),
+    # (no nearbyint: the reference evaluator truncates, nearbyint(1.75) = 1)
+    'round_ops': ('(FPCore (x) (+ (floor x) (+ (ceil x) (+ (trunc x) (round x)))))', [(2.5,), (-2.5,), (0.5,), (1.75,), (-0.25,)]),
+}
+
+
+def titan_json(v):
+    from titanfp.arithmetic.mpmf import MPMF
+    if isinstance(v, bool):
+        return {'k': 'bool', 'b': v}
+    if isinstance(v, MPMF):
+        return value_json(fp.Float(s=bool(v.negative), exp=int(v.exp), c=int(v.c), isinf=bool(v.isinf), isnan=bool(v.isnan))
+                          if not (v.isinf or v.isnan) else (float('nan') if v.isnan else (float('-inf') if v.negative else float('inf'))))
+    if isinstance(v, (list, tuple)) or hasattr(v, '__iter__'):
+        return {'k': 'list', 'v': [titan_json(x) for x in v]}
+    raise Unsupported(f'titanfp value {type(v).__name__}')
+
+
+def listify(j):
+    """tuples of the re-read function are the core's arrays"""
+    if isinstance(j, dict) and j.get('k') == 'tuple':
+        return {'k': 'list', 'v': [listify(x) for x in j['v']]}
+    if isinstance(j, dict) and j.get('k') == 'list':
+        return {'k': 'list', 'v': [listify(x) for x in j['v']]}
+    return j
+
+
+def record_cores(stats):
+    from titanfp.arithmetic.mpmf import Interpreter
+    from titanfp.fpbench import fpcparser
+    recs = []
+    for name, (src, grid) in CORES.items():
+        try:
+            core_ = fpcparser.compile1(src)
+        except Exception as e:      # noqa: BLE001
+            raise core.MachineryError(f'hand-written core {name} does not parse: {e}')
+        try:
+            g = fp.Function.from_fpcore(core_)
+        except Exception as e:      # noqa: BLE001
+            stats[f'reader-refused:{name}:{type(e).__name__}'] += 1
+            continue
+        for args in grid:
+            try:
+                t = Interpreter().interpret(core_, [to_mpmf(a) for a in args])
+                a_ = {'val': titan_json(t)}
+            except (OutOfDomain, Unsupported):
+                continue
+            except Exception as e:      # noqa: BLE001
+                stats[f'titanfp-raised:{name}:{type(e).__name__}'] += 1
+                continue
+            b_ = progrun._run_real_once(g, list(args), None, 4)       # no retry: a re-read loop that never ends is one of the findings
+            if 'ood' in b_:
+                continue
+            if 'val' in b_:
+                b_ = {'val': listify(b_['val'])}
+            recs.append({'core': name, 'src': src, 'args': repr(args), 'a': a_, 'b': b_})
+    return recs
+
+
 def to_mpmf(x):
     from titanfp.arithmetic.mpmf import MPMF
     if isinstance(x, list):
@@ -368,7 +506,11 @@ def record(job):
                 except (OutOfDomain, Unsupported):
                     to = None
                 except Exception as e:      # noqa: BLE001
-                    if type(e).__name__ == 'ShapeError' and 'shape [0' in str(e):
+                    if isinstance(e, ValueError) and 'unsupported overflow mode' in str(e):
+                        # the reference evaluator knows one overflow rule for fixed point (infinity), not clamp / wrap
+                        stats['titanfp-does-not-know-the-overflow-mode'] += 1
+                        to = None
+                    elif type(e).__name__ == 'ShapeError' and 'shape [0' in str(e):
                         # the reference evaluator cannot build a tensor with no elements: `(tensor ([i 0]) i)` alone raises this
                         stats['titanfp-cannot-build-an-empty-tensor'] += 1
                         to = None
@@ -434,8 +576,24 @@ def run(tier: str) -> int:
             key['shape'] = 'loop-target-shadows-a-variable-read-after-the-loop'
         elif p['kind'] in ('titanfp', 'reread') and p['shape']:
             key['shape'] = 'operations-after-a-with-block'
+        elif p['kind'] in ('titanfp', 'reread') and clause == 'value-zero-sign' and 'MPFixedContext(-1)' in p['src']:
+            key['shape'] = 'negative-zero-of-MPFixedContext(-1)-is-lost-by-precision-integer'
         rep.mismatch(key, {'program': p['src'], 'kind': p['kind'], 'input': p['inputs'][idx - 1], 'clause': clause, 'machine_error': merr,
                            'core': p['core']})
+    # --- the reader on hand-written cores: (reference evaluator, re-read function) pairs judged by spec/Agree.tla
+    crecs = record_cores(stats)
+    for i, r_ in enumerate(crecs):
+        r_['tid'] = i
+    if crecs:
+        cout = core.validate_trace('Agree', [{'tid': r_['tid'], 'a': r_['a'], 'b': r_['b']} for r_ in crecs], cfg='Agree')
+        rep.add_tlc(cout.generated, cout.distinct)
+        names = {'compiled-code-failed': 'reread-function-raises', 'compiled-result-differs': 'reread-function-differs-from-the-core'}
+        for (tid, clause) in cout.mismatches:
+            r_ = crecs[tid]
+            rep.mismatch({'clause': names.get(clause, clause), 'kind': 'core', 'core': r_['core']},
+                         {'core': r_['src'], 'args': r_['args'], 'reference_evaluator': r_['a'], 'reread_function': r_['b'], 'clause': names.get(clause, clause)})
+    rep.cov['hand_written_cores'] = len(CORES)
+    rep.cov['core_reader_pairs'] = len(crecs)
     runs = Counter()
     for p in progs:
         runs[p['kind']] += len(p['inputs'])
